@@ -2,6 +2,7 @@ import Driver.Proto
 import Model.RateLimiter
 import Model.RateLimiterInt
 import Model.RateLimiterWindow
+import Model.RateLimiterRW
 open Proto RL
 
 /-! Model driver of C16.  Area `burst`: one history = `reset <rootCap>` followed by calls of the exported API made in
@@ -151,6 +152,40 @@ def windowStep (d : DS) (ws0 : List String) : Option DS × String :=
       let d' := match pick with | some (some s') => { d with s := s' } | _ => d
       (some d', "window-set " ++ " || ".intercalate outs)
 
+/-! ### lines `rwin r ; r ; … | w`: the read-lock window, run on the readers-writer machine (`RL.rwWindow`) -/
+
+def parseRead (d : DS) : List String → Option Call
+  | ["cap", l, ap] => match l.toNat? with | some l => if l < d.vis d.s then some (.cap (d.mid l) (ap == "1")) else none | none => none
+  | ["last", l] => match l.toNat? with | some l => if l < d.vis d.s then some (.lastUsed (d.mid l)) else none | none => none
+  | ["closed", l] => match l.toNat? with | some l => if l < d.vis d.s then some (.closed (d.mid l)) else none | none => none
+  | _ => none
+
+def parseWrite (d : DS) : List String → Option Call
+  | ["use", l, a] => match l.toNat?, a.toInt? with | some l, some a => if l < d.vis d.s && a ≥ 0 then some (.use (d.mid l) a) else none | _, _ => none
+  | ["setcap", l, c] => match l.toNat?, c.toInt? with | some l, some c => if l < d.vis d.s then some (.setCap (d.mid l) c) else none | _, _ => none
+  | ["new", p, c] => match p.toNat?, c.toInt? with | some p, some c => if p < d.vis d.s then some (.newChild (d.mid p) c) else none | _, _ => none
+  | ["close", l] => match l.toNat? with | some l => if l < d.vis d.s && l != 0 then some (.closeChild (d.mid l)) else none | none => none
+  | _ => none
+
+def retStr (nextReq : Nat) : Ret → String
+  | .num n => toString n
+  | .flag b => toString b
+  | .answer (some a) => "r" ++ toString nextReq ++ " " ++ ansStr a
+  | .answer none => "r" ++ toString nextReq ++ " pending"
+  | .made b => if b then "n=ok" else "n=nil"
+  | .unit => ""
+
+def rwinStep (d : DS) (ws : List String) : Option DS × String :=
+  let rs := splitOps (ws.takeWhile (· != "|"))
+  let w := (ws.dropWhile (· != "|")).drop 1
+  match rs.mapM (parseRead d), parseWrite d w with
+  | some reads, some wc =>
+    let o := rwWindow d.s reads wc
+    (some { d with s := o.cfg.shared },
+     glue (["rwin"] ++ o.reads.map (fun r => " ".intercalate (r.map (retStr d.s.nextReq))) ++
+           ["blocked=" ++ (if o.blocked then "1" else "0")] ++ o.wres.map (retStr d.s.nextReq)))
+  | _, _ => (some d, "bad-op")
+
 def step (st : Option DS) (line : String) : Option DS × String :=
   match words line, st with
   | ["reset", c], _ =>
@@ -184,7 +219,17 @@ def step (st : Option DS) (line : String) : Option DS × String :=
         (some { d with s := s' }, "r" ++ toString s.nextReq ++ " " ++ out)
       else (st, "bad-handle")
     | _, _ => (st, "bad-op")
+  | ["chancap", l], some d =>
+    -- `cap()` of the channel `Use(-1)` returns (the call is answered before the lock is taken and changes nothing)
+    let s := d.s
+    match l.toNat? with
+    | some l =>
+      if l < d.vis s then
+        (some { d with s := exec s (.use (d.mid l) (-1)) }, "r" ++ toString s.nextReq ++ " cap=" ++ toString answerChanCap)
+      else (st, "bad-handle")
+    | none => (st, "bad-op")
   | "window" :: _mode :: ws, some d => if d.bb then (st, "window-skipped") else windowStep d ws
+  | "rwin" :: ws, some d => if d.bb then (st, "window-skipped") else rwinStep d ws
   | ["tick"], some d =>
     let s := d.s
     if s.tpc = .sel then
